@@ -8,9 +8,13 @@ package main
 //   p.registry.…           the registry field is omitted from the translated `parser` (untranslatable type); the calls through it
 //                          (`Commodities().MustGet(x)`, `Accounts().TBDAccount()`) are `ext` parameters as everywhere
 //   time.Parse("02.01.2006", s)   prelude `Time.ParseDMYdot` (GoSem/ParseLayout.lean: the model's layout interpreter on `layoutDMYdot`)
+//   dateRegex.MatchString(s), replacer.Replace(s), strings.TrimSpace(s)   (ch.swisscard) prelude `Regexp.matchDate`, `Strings.replaceChfApos`,
+//                          `Strings.TrimSpace` (GoSem/ImportStr.lean) — the first two only on never-assigned package-level values
+//                          initialised with the listed constants (importStrCall)
 
 import (
 	"go/ast"
+	"go/token"
 	"go/types"
 	"strings"
 )
@@ -26,7 +30,16 @@ func init() {
 			funcs: []string{"parser.parseCurrency", "parser.parseWords", "parser.parseDate", "parser.parseAmount", "parser.parseBooking", "parser.readLine"},
 			agree: map[string]string{"parser.parseCurrency": "ImportSupercard", "parser.parseWords": "ImportSupercard", "parser.parseDate": "ImportSupercard",
 				"parser.parseAmount": "ImportSupercard", "parser.parseBooking": "ImportSupercard", "parser.readLine": "ImportSupercard"}},
+		&trUnit{pkg: "cmd/importer/swisscard", mod: "ImportSwisscard", funcs: []string{"parser.parseBooking", "parser.readLine"},
+			agree: map[string]string{"parser.parseBooking": "ImportSwisscard", "parser.readLine": "ImportSwisscard"}},
 	)
+	// ch.swisscard: strings.TrimSpace, dateRegex.MatchString, replacer.Replace (GoSem/ImportStr.lean)
+	trStubEnsure("strings", "func TrimSpace(", "func TrimSpace(s string) string")
+	trStubEnsure("strings", "type Replacer struct", "type Replacer struct{ _ int }")
+	trStubEnsure("strings", "func NewReplacer(", "func NewReplacer(oldnew ...string) *Replacer")
+	trStubEnsure("strings", "func (r *Replacer) Replace(", "func (r *Replacer) Replace(s string) string")
+	trStubEnsure("regexp", "func (re *Regexp) MatchString(", "func (re *Regexp) MatchString(s string) bool")
+	trPrims["strings.TrimSpace"] = trPrim{lean: "Strings.TrimSpace"}
 	trRegexpPrelude[`\s+`] = "Regexp.replaceAllWs" // GoSem/ImportStr.lean
 	trStubEnsure("encoding/csv", "type Reader struct", "type Reader struct{ _ int }")
 	trStubEnsure("encoding/csv", "func (r *Reader) Read(", "func (r *Reader) Read() (record []string, err error)")
@@ -62,14 +75,15 @@ func trImportImports(text string) string {
 	if strings.Contains(text, "Time.ParseDMYdot") {
 		res += "import Knut.GoSem.ParseLayout\n"
 	}
-	if strings.Contains(text, "Regexp.replaceAllWs") {
+	if strings.Contains(text, "Regexp.replaceAllWs") || strings.Contains(text, "Regexp.matchDate") || strings.Contains(text, "Strings.TrimSpace") ||
+		strings.Contains(text, "Strings.replaceChfApos") {
 		res += "import Knut.GoSem.ImportStr\n"
 	}
 	return res
 }
 
 // trImportUnits: the importer units (hooks below apply only there)
-var trImportUnits = map[string]bool{"ImportSwisscard2": true, "ImportSupercard": true}
+var trImportUnits = map[string]bool{"ImportSwisscard2": true, "ImportSupercard": true, "ImportSwisscard": true}
 
 func (c *trCtx) importMode() bool {
 	return c != nil && c.fn != nil && c.fn.unit != nil && trImportUnits[c.fn.unit.mod]
@@ -118,4 +132,122 @@ func (c *trCtx) importShadowsType(obj types.Object) bool {
 	}
 	_, isType := obj.Pkg().Scope().Lookup(obj.Name()).(*types.TypeName)
 	return isType
+}
+
+// trRegexpMatchPrelude: the regular expressions (pattern text) whose MatchString has a meaning in the prelude (GoSem/ImportStr.lean)
+var trRegexpMatchPrelude = map[string]string{`\d\d.\d\d.\d\d\d\d`: "Regexp.matchDate"}
+
+// trReplacerPrelude: the argument lists of strings.NewReplacer (constants, comma separated) whose Replace has a meaning in the prelude
+var trReplacerPrelude = map[string]string{`"CHF","","'",""`: "Strings.replaceChfApos"}
+
+// importStrCall (hook of the call expression, before the regexp hooks of the other units): in the importer units
+//   re.MatchString(s)   on a PACKAGE-LEVEL, never assigned `var re = regexp.MustCompile("<constant>")` with a pattern of
+//                       trRegexpMatchPrelude: the pure prelude function (a package-level MustCompile that returned cannot be nil)
+//   rp.Replace(s)       on a package-level, never assigned `var rp = strings.NewReplacer(<constants>)` of trReplacerPrelude
+func (c *trCtx) importStrCall(x *ast.CallExpr) (string, bool) {
+	if !c.importMode() {
+		return "", false
+	}
+	sel, ok := trUnparen(x.Fun).(*ast.SelectorExpr)
+	if !ok {
+		return "", false
+	}
+	s, ok := c.info().Selections[sel]
+	if !ok || s.Kind() != types.MethodVal {
+		return "", false
+	}
+	fo, _ := s.Obj().(*types.Func)
+	if fo == nil || len(x.Args) != 1 {
+		return "", false
+	}
+	full := fo.FullName()
+	if full != "(*regexp.Regexp).MatchString" && full != "(*strings.Replacer).Replace" {
+		return "", false
+	}
+	id, ok := trUnparen(sel.X).(*ast.Ident)
+	if !ok {
+		return "", false
+	}
+	v, ok := c.info().Uses[id].(*types.Var)
+	if !ok || v.Pkg() == nil || v.Parent() != v.Pkg().Scope() {
+		return "", false
+	}
+	if full == "(*regexp.Regexp).MatchString" {
+		pat := c.t.regexpPattern(v, x.Pos())
+		lean, ok := trRegexpMatchPrelude[pat]
+		if !ok {
+			trFail(x.Pos(), "MatchString of the regular expression %q has no meaning in the prelude", pat)
+		}
+		return "(" + lean + " " + c.expr(x.Args[0]) + ")", true
+	}
+	key := c.t.importReplacerArgs(v, x.Pos())
+	lean, ok := trReplacerPrelude[key]
+	if !ok {
+		trFail(x.Pos(), "strings.NewReplacer(%s) has no meaning in the prelude", key)
+	}
+	return "(" + lean + " " + c.expr(x.Args[0]) + ")", true
+}
+
+// importReplacerArgs: the constant arguments of the `strings.NewReplacer(…)` that initialises the package variable o (never assigned,
+// its address never taken)
+func (t *trTranslator) importReplacerArgs(o *types.Var, pos token.Pos) string {
+	p := t.l.pkgs[o.Pkg().Path()]
+	if p == nil {
+		trFail(pos, "package of %s not loaded", o.Name())
+	}
+	var init ast.Expr
+	for _, f := range p.files {
+		for _, d := range f.Decls {
+			gd, ok := d.(*ast.GenDecl)
+			if !ok || gd.Tok != token.VAR {
+				continue
+			}
+			for _, sp := range gd.Specs {
+				vs := sp.(*ast.ValueSpec)
+				for i, n := range vs.Names {
+					if p.info.Defs[n] == o && len(vs.Values) == len(vs.Names) {
+						init = vs.Values[i]
+					}
+				}
+			}
+		}
+		ast.Inspect(f, func(n ast.Node) bool {
+			switch x := n.(type) {
+			case *ast.AssignStmt:
+				for _, l := range x.Lhs {
+					if id := trBaseIdent(l); id != nil && p.info.Uses[id] == o {
+						trFail(x.Pos(), "package variable %s is assigned here: outside the subset", o.Name())
+					}
+				}
+			case *ast.UnaryExpr:
+				if x.Op == token.AND {
+					if id := trBaseIdent(x.X); id != nil && p.info.Uses[id] == o {
+						trFail(x.Pos(), "the address of package variable %s is taken here: outside the subset", o.Name())
+					}
+				}
+			}
+			return true
+		})
+	}
+	call, ok := init.(*ast.CallExpr)
+	if !ok {
+		trFail(pos, "package variable %s is not initialised by strings.NewReplacer(<constants>)", o.Name())
+	}
+	sel, ok := call.Fun.(*ast.SelectorExpr)
+	if !ok {
+		trFail(pos, "package variable %s is not initialised by strings.NewReplacer(<constants>)", o.Name())
+	}
+	fo, _ := p.info.Uses[sel.Sel].(*types.Func)
+	if fo == nil || fo.FullName() != "strings.NewReplacer" || call.Ellipsis.IsValid() {
+		trFail(pos, "package variable %s is not initialised by strings.NewReplacer(<constants>)", o.Name())
+	}
+	var parts []string
+	for _, a := range call.Args {
+		tv := p.info.Types[a]
+		if tv.Value == nil {
+			trFail(pos, "package variable %s is not initialised by strings.NewReplacer(<constants>)", o.Name())
+		}
+		parts = append(parts, tv.Value.ExactString())
+	}
+	return strings.Join(parts, ",")
 }
